@@ -300,3 +300,60 @@ func allCalls(n ast.Node, funRe string) []*ast.CallExpr {
 }
 
 var _ = token.ADD
+
+// eventsInl is events(fn) with the bodies of the package's own unexported helpers spliced in after each call to them
+// (methods called on fn's receiver, and package-level functions), two levels deep, never recursively: a block that
+// was moved into a helper still shows up, in order, in the operation it was moved out of.  The spliced events keep
+// the helper's own parameter names.
+func eventsInl(dir string, fn *ast.FuncDecl) []ev {
+	return inlEvents(dir, fn, 2, map[*ast.FuncDecl]bool{fn: true})
+}
+
+func inlEvents(dir string, fn *ast.FuncDecl, fuel int, busy map[*ast.FuncDecl]bool) []ev {
+	base := events(fn)
+	p := pkgs[dir]
+	if p == nil || fn == nil || fuel == 0 {
+		return base
+	}
+	recvName, recvType := "", ""
+	if fn.Recv != nil && len(fn.Recv.List) == 1 && len(fn.Recv.List[0].Names) == 1 {
+		recvName = fn.Recv.List[0].Names[0].Name
+		t := fn.Recv.List[0].Type
+		if st, ok := t.(*ast.StarExpr); ok {
+			t = st.X
+		}
+		recvType = show(t)
+	}
+	var out []ev
+	for _, e := range base {
+		out = append(out, e)
+		if e.kind != "call" {
+			continue
+		}
+		c, ok := e.node.(*ast.CallExpr)
+		if !ok {
+			continue
+		}
+		var callee *ast.FuncDecl
+		switch f := c.Fun.(type) {
+		case *ast.Ident:
+			if !ast.IsExported(f.Name) {
+				callee = p.funcs[f.Name]
+			}
+		case *ast.SelectorExpr:
+			if x, ok := f.X.(*ast.Ident); ok && recvName != "" && x.Name == recvName && !ast.IsExported(f.Sel.Name) {
+				callee = p.funcs[recvType+"."+f.Sel.Name]
+			}
+		}
+		if callee == nil || callee.Body == nil || busy[callee] {
+			continue
+		}
+		busy[callee] = true
+		for _, s := range inlEvents(dir, callee, fuel-1, busy) {
+			s.depth += e.depth + 1
+			out = append(out, s)
+		}
+		delete(busy, callee)
+	}
+	return out
+}
